@@ -213,41 +213,6 @@ def canon(obj):
     return fp(obj, ids=False)
 
 
-def first_diff(a, b, path='$'):
-    """where two fingerprints differ: (path, kind, detail)"""
-    if a == b:
-        return None
-    if isinstance(a, tuple) and isinstance(b, tuple) and a and b and a[0] == b[0] == 'dict':
-        ka = [k for k, _ in a[2]]
-        kb = [k for k, _ in b[2]]
-        if ka != kb:
-            removed = [k for k in ka if k not in kb]
-            added = [k for k in kb if k not in ka]
-            if removed or added:
-                return (path, 'dict_keys', {'removed': removed, 'added': added})
-            return (path, 'dict_order', {'before': ka, 'after': kb})
-        for (k, va), (_, vb) in zip(a[2], b[2]):
-            d = first_diff(va, vb, f'{path}[{k}]')
-            if d:
-                return d
-        if a[3:] != b[3:]:
-            return (path, 'container_replaced', {})
-        return (path, 'dict_type', {})
-    if isinstance(a, tuple) and isinstance(b, tuple) and len(a) == len(b):
-        for i, (x, y) in enumerate(zip(a, b)):
-            if x != y:
-                name = path
-                if isinstance(x, tuple) and x and isinstance(x[0], str) and len(x) == 2 and not isinstance(y, str):
-                    name = f'{path}.{x[0]}'
-                    return first_diff(x[1], y[1], name) or (name, 'changed', {})
-                if isinstance(x, (tuple,)) and isinstance(y, tuple):
-                    return first_diff(x, y, f'{path}/{i}')
-                if isinstance(x, int) and isinstance(y, int) and i == len(a) - 1 and i > 0:
-                    return (path, 'container_replaced', {})
-                return (f'{path}/{i}', 'value', {'before': str(x)[:80], 'after': str(y)[:80]})
-    return (path, 'changed', {'before': str(a)[:80], 'after': str(b)[:80]})
-
-
 def all_diffs(a, b, path='$', out=None, limit=8):
     """every leaf-level difference between two fingerprints (bounded)."""
     if out is None:
@@ -519,12 +484,29 @@ def build_ops():
             return f
         return deco
 
+    def small_pix(r):
+        # conversions between WCSs of different pixel scales make regions grow: keep masks affordable
+        try:
+            b = r.bounding_box
+            return (b.ixmax - b.ixmin) * (b.iymax - b.iymin) < 60000 and abs(b.ixmin) < 10000 and abs(b.iymin) < 10000
+        except Exception:
+            return False
+
+    def small_sky(r):
+        for name in ('radius', 'width', 'height', 'outer_radius', 'outer_width', 'outer_height'):
+            v = getattr(r, name, None)
+            if v is not None and not (v.to_value(u.deg) < 5):
+                return False
+        if isinstance(r, R.CompoundSkyRegion):
+            return small_sky(r.region1) and small_sky(r.region2)
+        return True
+
     def keep_pix(pool, r):
-        if isinstance(r, R.PixelRegion):
+        if isinstance(r, R.PixelRegion) and small_pix(r):
             pool.add(pool.pix, r)
 
     def keep_sky(pool, r):
-        if isinstance(r, R.SkyRegion):
+        if isinstance(r, R.SkyRegion) and small_sky(r):
             pool.add(pool.sky, r)
 
     @op('contains')
@@ -1533,6 +1515,40 @@ def iter_json(ix):
     return {'k': 'other', 'src': ix[1]}
 
 
+def run_witness(case):
+    """stored witnesses of past findings (corpus/C13): they must stay repaired."""
+    import astropy.units as u
+    from astropy.coordinates import SkyCoord
+    import regions as R
+    V = []
+    with warnings.catch_warnings():
+        warnings.simplefilter('ignore')
+        if case['name'] == 'crtf_excluded_twice':
+            # F6: an excluded region serialised twice to CRTF
+            def mk(inc):
+                return R.CircleSkyRegion(SkyCoord(1, 2, unit='deg'), 1 * u.deg,
+                                         meta=R.RegionMeta({'include': inc, 'label': 'x'}))
+            for inc in (False, True, 0, 1):
+                for target in (mk(inc), R.Regions([mk(inc), mk(True)])):
+                    before = fp(target)
+                    t1 = attempt(lambda a: target.serialize(format='crtf'), None)
+                    mid = fp(target)
+                    t2 = attempt(lambda a: target.serialize(format='crtf'), None)
+                    where = {'op': 'serialize', 'fmt': 'crtf', 'seed': 0, 'step': 0}
+                    if mid != before:
+                        diffs = [(f'arg0{p[1:]}', k, d) for (p, k, d) in all_diffs(before, mid)]
+                        V.append(dict(where, kind='input_mutated', diffs=diffs,
+                                      detail=f'serialize(crtf) of a region with include={inc!r} changed its input: {diffs[:2]}'))
+                    elif canon_result(t1) != canon_result(t2):
+                        V.append(dict(where, kind='repeat_differs',
+                                      detail=f'serialize(crtf) twice, include={inc!r}: {t1[1]!r} then {t2[1]!r}'))
+                    elif t1[0] == 'ok' and not inc and isinstance(target, R.Region) and '-circle' not in t1[1]:
+                        V.append(dict(where, kind='repeat_differs', detail=f'excluded region written without "-": {t1[1]!r}'))
+        else:
+            raise ValueError(case['name'])
+    return {'violations': V, 'n_ops': 16, 'calls': 16}
+
+
 class Check(PropertyCheck):
     id = 'C13'
     lean_targets = ['RegionsVerif.Props.C13']
@@ -1550,8 +1566,8 @@ class Check(PropertyCheck):
             'Before each call a deep structural fingerprint of every argument (float.hex, array bytes + dtype, units, dict items '
             'in order, container ids) is taken and compared after the call and after a second call; both results are compared '
             '(canonical dumps); fixed probes are compared between the start and the end of each sequence.  '
-            'A fixed list of 31 operations is run in fresh interpreters under 4 other PYTHONHASHSEEDs and compared with this '
-            'process after all sequences.  Model cases: traced real operations (19 kinds) translated into effect programs, '
+            'A fixed list of about 30 operations is run in fresh interpreters under 5 PYTHONHASHSEEDs and compared with this '
+            'process after all sequences.  Corpus: the stored witnesses of F6 (excluded region serialised twice to CRTF).  Model cases: traced real operations (19 kinds) translated into effect programs, '
             'deep / shallow copies, iterator streams, the compiled tables.  Non-trivial = a sequence, or a model case with at '
             'least one effect.')
     assumptions = [
@@ -1626,7 +1642,7 @@ class Check(PropertyCheck):
         for op in TRACE_OPS + ['copy_deep', 'copy_shallow']:
             for _ in range(n_trace * (2 if op.startswith('copy_') else 1)):
                 cases.append({'kind': 'trace', 'op': op, 'seed': rng.randrange(1 << 62)})
-        n_seq = 200 if tier == 'quick' else 1500
+        n_seq = 200 if tier == 'quick' else 1000
         for _ in range(n_seq):
             n_ops = 30 if tier == 'quick' else rng.choice([30, 60, 200])
             cases.append({'kind': 'seq', 'seed': rng.randrange(1 << 62), 'n_ops': n_ops})
@@ -1656,6 +1672,8 @@ class Check(PropertyCheck):
             self._req = getattr(self, '_req', {})
             self._req[case['seed']] = r.pop('_request')
             return r
+        if k == 'witness':
+            return run_witness(case)
         if k == 'iter':
             it = real_iter(case['expr'])
             for _ in range(case['pos']):
@@ -1681,7 +1699,7 @@ class Check(PropertyCheck):
 
     def model(self, case, replies):
         k = case['kind']
-        if k == 'seq':
+        if k in ('seq', 'witness'):
             return None
         r = replies[0]
         if 'fail' in r:
@@ -1696,7 +1714,7 @@ class Check(PropertyCheck):
 
     def equal(self, case, real, model):
         k = case['kind']
-        if k == 'seq':
+        if k in ('seq', 'witness'):
             return True
         if model is None or 'fail' in model:
             return False
@@ -1724,7 +1742,7 @@ class Check(PropertyCheck):
 
     def oracle(self, case, real):
         k = case['kind']
-        if k == 'seq':
+        if k in ('seq', 'witness'):
             return real['violations']
         if k == 'trace' and case['op'] in self.READ_ONLY_TRACE and real['fp_changed']:
             fmt = case['op'].split('_')[0] if case['op'].endswith('_serialize') else None
@@ -1744,6 +1762,8 @@ class Check(PropertyCheck):
         return False
 
     def nontrivial(self, case, real):
+        if case['kind'] == 'witness':
+            return True
         if case['kind'] == 'seq':
             return real['n_ops'] > 0
         if case['kind'] == 'trace':
@@ -1753,6 +1773,8 @@ class Check(PropertyCheck):
     def bucket(self, case, real):
         if case['kind'] == 'trace':
             return f"trace/{case['op']}/{'changed' if real['changed'] else 'unchanged'}"
+        if case['kind'] == 'witness':
+            return f"witness/{case['name']}"
         if case['kind'] == 'seq':
             return f"seq/{case['n_ops']}"
         return case['kind']
